@@ -126,6 +126,14 @@ func interpolateMapValues[K comparable, V any, M ~map[K]V](tf stringTransformer,
 // interpolateMap applies interpolateAny over both keys and values of any type
 // of map. The map is altered in-place.
 func interpolateMap[K comparable, V any, M ~map[K]V](tf stringTransformer, m M) error {
+	// Build the interpolated pairs aside, then rewrite the map. Inserting
+	// renamed keys while ranging over the map could otherwise visit (and
+	// interpolate) them a second time.
+	type pair struct {
+		k K
+		v V
+	}
+	pairs := make([]pair, 0, len(m))
 	for k, v := range m {
 		// We interpolate both keys and values.
 		intk, err := interpolateAny(tf, k)
@@ -138,12 +146,12 @@ func interpolateMap[K comparable, V any, M ~map[K]V](tf stringTransformer, m M) 
 		if err != nil {
 			return err
 		}
+		pairs = append(pairs, pair{k: intk, v: intv})
+	}
 
-		// If the key changed due to interpolation, delete the old key.
-		if k != intk {
-			delete(m, k)
-		}
-		m[intk] = intv
+	clear(m)
+	for _, p := range pairs {
+		m[p.k] = p.v
 	}
 	return nil
 }
